@@ -9,7 +9,11 @@ Pipeline (spec/Registry.tla is the oracle, spec/RegistryTrace.tla binds it to th
      (non-vacuity); the counterexample's call sequence is added to the behaviours executed;
   3. every path of the dumped graph (= every call sequence TLC enumerated) plus seeded random
      longer sequences over much larger pools are executed on the real library, each in a fresh
-     process; after every call the worker projects the whole public level API;
+     process; after every call the worker projects the whole public level API - from an ordinary
+     call site and again from INSIDE the library's own writing (Registry!Contexts: the Write of the
+     default logger's destination while ParseLevel reports an unknown name, another goroutine at
+     that moment, the Write of an ordinary record, the String method of a value being formatted):
+     the registry's answers depend on the registry only;
   4. TLC validates the recording against RegistryTrace (same operators as the model).  Every
      failed comparison carries a key naming the part of the statement and the named deviation
      that predicts exactly the observed value ("unexplained" otherwise).
@@ -24,13 +28,15 @@ from tlagen import gen_mc
 from vlib import Undecided, read_ndjson
 
 GATE_LEVELS = [0, 1, 2, 3, 4, 5, 6, 7, 8]          # Registry!GateLevels
-ALL_DEVS = ["ParseFolds", "JSONNoUnquote", "TagBytes", "ErrDevNoArg"]
+ALL_DEVS = ["ParseFolds", "JSONNoUnquote", "TagBytes", "ErrDevNoArg", "BusyWhileReporting"]
+NEST_CONTEXTS = ["warn", "warn-go", "rec", "val"]      # Registry!Contexts without "outside"
 # deviation -> the invariant / action property TLC must be able to violate with it
 WITNESS = [("ParseFolds", "INVARIANT", "NameRoundTrip"), ("ParseFolds", "INVARIANT", "TextRoundTrip"),
            ("ParseFolds", "PROPERTY", "AnswersToTitle"), ("JSONNoUnquote", "INVARIANT", "JSONRoundTrip"),
-           ("TagBytes", "INVARIANT", "ShortTagLen"), ("ErrDevNoArg", "INVARIANT", "RoutedIfRequested")]
+           ("TagBytes", "INVARIANT", "ShortTagLen"), ("ErrDevNoArg", "INVARIANT", "RoutedIfRequested"),
+           ("BusyWhileReporting", "INVARIANT", "ContextFree")]
 INVARIANTS = ["NameRoundTrip", "TextRoundTrip", "JSONRoundTrip", "ShortTagLen", "UsesGivenTags", "GatedAsTreated",
-              "RoutedIfRequested", "Consistent"]
+              "RoutedIfRequested", "Consistent", "ContextFree", "AnswersEverywhere"]
 PROPERTIES = ["AnswersToTitle", "MustRefuse", "MustAccept", "RefusalIsNoOp", "AcceptIsLocal"]
 
 
@@ -407,6 +413,12 @@ def run(ctx, replay_path):
     if not code_need <= set(stats) or not ({"case:accepted", "case:refused"} & set(stats)):
         raise Undecided("vacuity: the executed behaviours never produced decisions %s (or no case-colliding title)"
                         % sorted(code_need - set(stats)))
+    ran = summary.get("nest_ran", {})
+    if not all(ran.get(c) for c in NEST_CONTEXTS):
+        # (a library that no longer reports unknown names through the default logger has no "warn" context:
+        # then this part of the check has to be re-thought, it is not a violation)
+        raise Undecided("vacuity: the library never came to the nested contexts %s (steps per context: %s)"
+                        % ([c for c in NEST_CONTEXTS if not ran.get(c)], ran))
     ctx.traces += len(all_beh)
     ctx.evaluations += summary["library_calls"]
     nontrivial = set()
@@ -420,16 +432,22 @@ def run(ctx, replay_path):
     ctx.extra.update(graph_states=n_nodes, graph_edges=n_edges, graph_call_sequences=n_seqs, graph_behaviours_executed=n_graph,
                      model_decisions=decisions, code_decisions=stats, random_behaviours=len(rnd), witnesses=wit,
                      trace_lines=summary["lines"], distinct_level_observations=summary["lv_defs"],
-                     distinct_parse_tables=summary["pr_defs"], deviation_keys_seen=sorted(seen_keys))
+                     distinct_parse_tables=summary["pr_defs"], deviation_keys_seen=sorted(seen_keys),
+                     nested_contexts_steps=ran)
     ctx.assumptions += [
         "every behaviour runs in a fresh worker process (testing mode); byte-identical recordings of a shared prefix are merged",
         "text is projected to Unicode code points (stray UTF-8 bytes = -1); case folding modelled for ASCII and Latin-1 letters, "
         "the other characters used in titles are caseless; titles need no JSON escape",
         "treated-as targets are Panic..Trace; gating of levels registered without a treated-as level is C01's subject and not compared here",
         "RegWithPrintToErrorDevice() without arguments counts as a request (documented usage); several booleans: the last one wins",
-        "the package default logger is set to Off and redirected to recorders (ParseLevel logs its failures there)"]
+        "the package default logger is set to Off and redirected to recorders (ParseLevel logs its failures there)",
+        "nested contexts: after every step the round trips of every level and the whole ParseLevel table are also asked from "
+        "inside a destination's Write while ParseLevel reports an unknown name through a stand-in default logger (same "
+        "goroutine and another goroutine the Write waits for), inside the Write of an ordinary record and inside the String "
+        "method of a value being formatted; a Write that arrives while the destination is asking is swallowed"]
     return ctx.finish(rule="every call sequence of length <= 2 of the exhaustive TLC graph (all value x title x option-pack "
                            "combinations) + TLC deviation counterexamples + seeded random histories of 2..7 calls over larger "
-                           "pools, each in a fresh process, whole level API projected after every call and validated by TLC; "
+                           "pools, each in a fresh process, whole level API projected after every call (from outside and from "
+                           "4 places inside the library's own writing) and validated by TLC; "
                            "non-trivial = distinct (call, outcome, registry-before) steps executed",
                       exhaustive=True)
